@@ -5,7 +5,7 @@ CLAIM = ('Real distance()/equalStates()/getMaximumExtent() code of SO(2), R^n (n
          '(bounds themselves symbolic): non-negative, zero to itself, bitwise symmetric and positive between non-equal states (R^n: thorough tier only), not above '
          'the maximum extent (SO2, Time, Discrete; R^1 attempted), triangle inequality for Discrete (proved) and refutation-only '
          'for float spaces.')
-OUT = ('proofs of the triangle inequality for float spaces (attempted in the thorough tier, reported undecided if so), R^n extent for n>1, '
+OUT = ('SO(3) beyond the self-distance query (4-term quaternion products: antipodal/metric queries undecided within the quick budget, thorough only), proofs of the triangle inequality for float spaces (attempted in the thorough tier, reported undecided if so), R^n extent for n>1, '
        'SO3/SE3/Sphere/Torus/Mobius/Klein (transcendental or multiplier-heavy), Dubins/RS (C14), compound weighting (thorough)')
 ASSUMPTIONS = ['|bounds| <= 1e6 for R^n/Time, |bounds| <= 1e6 for Discrete']
 
@@ -17,6 +17,12 @@ def queries(tier):
           cs.misc('time_distance', tier, bound='bounded/unbounded, symbolic bounds, every in-bounds pair', backends=('cadical', 'kissat')),
           cs.misc('discrete_distance', tier, bound='symbolic bounds in [-1e6,1e6], every in-bounds triple')]
     qs.append(cs.compound('metric', tier, bound='3 stub components, symbolic weights incl. zeros, symbolic component distances/extents'))
+    qs.append(cs.mobius('symmetry', tier, bound='every in-bounds pair, strip half-width symbolic in [0,1e3] (proof side usually undecided; refutes asymmetry within ~2 min)', backends=('cadical', 'kissat') if tier == 'quick' else ('cadical', 'kissat', 'minisat'), timeout=240 if tier == 'quick' else 1800))
+    if tier == 'thorough': qs.append(cs.so3('antipodal', tier, timeout=1800, bound='every in-bounds quaternion q against q and -q', backends=('cadical', 'kissat', 'minisat')))
+    if tier == 'thorough': qs.append(cs.so3('metric', tier, bound='every pair of in-bounds quaternions with coefficients in [-2,2]', uf=('fmul', 'fadd'), note='fmul/fadd abstracted (consistency claims); exact-arithmetic fallback on failure', timeout=1800))
+    if tier == 'thorough': qs.append(cs.so3('self', tier, timeout=1200, bound='every in-bounds quaternion', extra_cbmc=('-DVT_SQRT_ACCURATE',), backends=('cadical', 'kissat')))
+    qs.append(cs.mobius('self', tier, bound='every in-bounds state'))
+    qs.append(cs.mobius('triangle', tier, bound='every in-bounds triple (refutation side only is expected to be decided)', backends=('cadical', 'kissat')))
     if tier == 'thorough':
         qs += [cs.so2('triangle', tier, bound='every in-bounds triple', backends=('cadical', 'kissat', 'minisat'), timeout=1800),
                cs.misc('time_triangle', tier, bound='every in-bounds triple', backends=('cadical', 'kissat', 'minisat'), timeout=1800),
